@@ -6,6 +6,7 @@ import FimVerif.Proofs.Lemmas.StoreMergeFrame
 import FimVerif.Proofs.Lemmas.ARefAll
 import FimVerif.Proofs.Lemmas.ARefLocal
 import FimVerif.Proofs.Lemmas.StoreDisjointClone
+import FimVerif.Proofs.Lemmas.StoreUnset
 /-!
 # C05 — in-memory graph backends agree with each other and with the documented semantics
 
@@ -93,6 +94,57 @@ theorem bulk_update_stores_every_value (a p : Props) (k : String) (h : AMap.has 
 
 example : AMap.get "Name" (AMap.update [("NodeID", Val.str "n"), ("Name", Val.str "x")] [("Site", .str "UKY"), ("Name", .none)])
     = some Val.none := by decide
+
+/-! ## a stored value of any kind is a property that is there -/
+
+/-- **unset_asks_presence_not_value.**  `unset_node_property` of a name outside the protected ones, on a node that is found:
+    the outcome depends on whether the name is *bound* in the node's dictionary, never on the value bound to it.  Bound to
+    any `Val` — `None`, `''`, `0`, `False`, `[]`, `{}` like any other — the call succeeds and removes exactly that name;
+    only an unbound name raises ("Unable to unset property"), and then the store is unchanged. -/
+theorem unset_asks_presence_not_value (g nid k : String) (s : Store) (i : Nat) (a : Props)
+    (hk : k ≠ nxLabel) (hn : k ∉ noUnset) (hf : findNode s g nid = .ok i) (ha : nodeAttrs s i = some a) :
+    (∀ v : Val, AMap.get k a = some v →
+      Store.step (.unsetNodeProperty g nid k) s = (.ok .unit, updNode i (AMap.erase k) s)) ∧
+    (AMap.get k a = none → Store.step (.unsetNodeProperty g nid k) s = (.error .query, s)) := by
+  constructor
+  · intro v hv
+    simp [Store.step, unsetNodeProperty, hk, hn, withNode, hf, ha, AMap.has, hv]
+  · intro hv
+    simp [Store.step, unsetNodeProperty, hk, hn, withNode, hf, ha, AMap.has, hv]
+
+
+example : findNode ⟨[⟨1, [("GraphID", .str "g"), ("NodeID", .str "n"), ("Class", .str "Link"), ("Site", .none)]⟩], [], 2⟩ "g" "n" = .ok 1 ∧
+    AMap.get "Site" [("GraphID", Val.str "g"), ("NodeID", .str "n"), ("Class", .str "Link"), ("Site", .none)] = some Val.none ∧
+    "Site" ≠ nxLabel ∧ "Site" ∉ noUnset := by
+  refine ⟨rfl, rfl, by decide, by decide⟩
+
+/-- **stored_value_is_present_until_unset.**  The two-call history behind it: a bulk update that names `k` (with whatever
+    value: `update_node_properties(props={k: None})` is how a `None` gets stored, the single-value setter refuses it -
+    `none_value_refused`) succeeds, and the `unset_node_property(k)` that follows succeeds too and removes `k` from the
+    node the update wrote.  The update must not rewrite the node's keys (`GraphID`, `NodeID`: then the node is a
+    different node for the second call). -/
+theorem stored_value_is_present_until_unset (g nid k : String) (p : Props) (s : Store) (i : Nat) (a : Props)
+    (hk : k ≠ nxLabel) (hn : k ∉ noUnset) (hp : AMap.has nxLabel p = false)
+    (hkp : k ∈ AMap.keys p) (hgp : graphId ∉ AMap.keys p) (hnp : nodeId ∉ AMap.keys p)
+    (hf : findNode s g nid = .ok i) (ha : nodeAttrs s i = some a) :
+    let s1 := updNode i (fun a => AMap.update a p) s
+    Store.step (.updateNodeProperties g nid p) s = (.ok .unit, s1) ∧
+    Store.step (.unsetNodeProperty g nid k) s1 = (.ok .unit, updNode i (AMap.erase k) s1) := by
+  intro s1
+  have hf1 : findNode s1 g nid = .ok i :=
+    findNode_updNode_keepsKeys s g nid i i _ (fun a => AMap.get_update_not_mem graphId a p hgp)
+      (fun a => AMap.get_update_not_mem nodeId a p hnp) hf
+  have ha1 : nodeAttrs s1 i = some (AMap.update a p) := by
+    simp [s1, nodeAttrs_updNode_self, ha]
+  have hhas : AMap.has k (AMap.update a p) = true := has_update_of_mem a p k hkp
+  constructor
+  · simp [Store.step, updateNodeProperties, hp, withNode, hf, s1]
+  · simp [Store.step, unsetNodeProperty, hk, hn, withNode, hf1, ha1, hhas]
+
+example : Store.step (.unsetNodeProperty "g" "n" "Site")
+    (Store.step (.updateNodeProperties "g" "n" [("Site", .none)]) ⟨[⟨1, [("GraphID", .str "g"), ("NodeID", .str "n"), ("Class", .str "Link")]⟩], [], 2⟩).2
+    = (.ok .unit, ⟨[⟨1, [("GraphID", .str "g"), ("NodeID", .str "n"), ("Class", .str "Link")]⟩], [], 2⟩) := by rfl
+
 
 /-- **identity_props_protected.**  Whatever operation is executed, with whatever values (`Val`: strings, `None`,
     ints, bools, lists, dicts) — single, bulk and whole-graph updates, unsets, initial properties, imports,
